@@ -392,7 +392,7 @@ func c10Pool(c *Ctx) {
 		}
 		c.check(n == 2, rule, "Alloc/cases", w.pos(f.Pos()), "pooled and fresh case", fmt.Sprintf("%d return cases", n))
 		for _, st := range w.fieldStores(f, "ByteArrayPool.pool") {
-			c.check(t.locksAt(st)["ByteArrayPool.Mutex"], rule, "Alloc/under-lock", w.ipos(st), "under the pool lock", "the pool is shrunk without its lock")
+			c.check(t.locksAt(st)[w.mutexClass("ByteArrayPool", "ByteArrayPool.Mutex")], rule, "Alloc/under-lock", w.ipos(st), "under the pool lock", "the pool is shrunk without its lock")
 		}
 	}
 	if f := c.fn(rule, "(*ByteArrayPool).Free"); f != nil {
@@ -400,7 +400,7 @@ func c10Pool(c *Ctx) {
 		for _, st := range w.fieldStores(f, "ByteArrayPool.pool") {
 			n++
 			kind, elem, _ := classifyListStore(w, st.Val, "ByteArrayPool.pool")
-			c.check(kind == "append-one" && isParam(f, elem, 1) && t.locksAt(st)["ByteArrayPool.Mutex"], rule, "Free/append-under-lock", w.ipos(st), "the buffer is appended under the lock", "Free does not append exactly the given buffer under the pool lock ("+kind+")")
+			c.check(kind == "append-one" && isParam(f, elem, 1) && t.locksAt(st)[w.mutexClass("ByteArrayPool", "ByteArrayPool.Mutex")], rule, "Free/append-under-lock", w.ipos(st), "the buffer is appended under the lock", "Free does not append exactly the given buffer under the pool lock ("+kind+")")
 		}
 		c.check(n == 1, rule, "Free/store", w.pos(f.Pos()), "one store", fmt.Sprintf("%d stores to the pool in Free", n))
 	}
